@@ -123,26 +123,33 @@ theorem C01_read_record_of_params {F} (env : Env F) (strict : Bool) (ps : List (
 
 /-- the parameter kinds for which `ParamOK` is proved: `$` for an OPTIONAL attribute of any type, `*` for a derived
     attribute, an INTEGER token of the grammar (optional sign, digits) whose value fits `long` and is not the in-band
-    null `LONG_MAX` — each with any layout before and after -/
-inductive Covered {F} : Param F → Prop where
+    null `LONG_MAX`, an entity reference `#digits` (forward or backward) to an instance the manager holds and whose type
+    conforms to the attribute's entity type — each with any layout before and after -/
+inductive Covered {F} (env : Env F) : Param F → Prop where
   | dollar (a : AttrD) (hopt : a.optional = true) (hder : a.derived = false) (hred : a.redefining = false)
       (before after : List Byte) (hb : Seps before) (ha : Seps after) :
-      Covered { a := a, v := nullOf a, tok := [36], before := before, after := after }
+      Covered env { a := a, v := nullOf a, tok := [36], before := before, after := after }
   | star (a : AttrD) (hder : a.derived = true) (hred : a.redefining = false)
       (before after : List Byte) (hb : Seps before) (ha : Seps after) :
-      Covered { a := a, v := .derived, tok := [42], before := before, after := after }
+      Covered env { a := a, v := .derived, tok := [42], before := before, after := after }
   | integer (a : AttrD) (hty : a.ty = .one .integer) (hder : a.derived = false) (hred : a.redefining = false)
       (tok : List Byte) (htok : isInteger tok = true) (hlo : IStream.longMin ≤ denoteInteger tok)
       (hhi : denoteInteger tok < IStream.longMax)
       (before after : List Byte) (hb : Seps before) (ha : Seps after) :
-      Covered { a := a, v := .one (.atom (.int (denoteInteger tok))), tok := tok, before := before, after := after }
+      Covered env { a := a, v := .one (.atom (.int (denoteInteger tok))), tok := tok, before := before, after := after }
+  | ref (a : AttrD) (tg : String) (hty : a.ty = .one (.entity tg)) (hder : a.derived = false) (hred : a.redefining = false)
+      (ds : List Byte) (hne : ds ≠ []) (hds : ds.all isDigit = true) (hhi : ((digitsVal ds 0 : Nat) : Int) ≤ IStream.intMax)
+      (hfound : refLookup env.lookup tg ((digitsVal ds 0 : Nat) : Int) = .found)
+      (before after : List Byte) (hb : Seps before) (ha : Seps after) :
+      Covered env { a := a, v := .one (.atom (.ref ((digitsVal ds 0 : Nat) : Int))), tok := 35 :: ds,
+                    before := before, after := after }
 
 /-- **read (render p ℓ) = p for records over the covered kinds** (`_partial`: REAL/NUMBER/STRING/BINARY/ENUMERATION/
-    BOOLEAN/LOGICAL tokens, references, aggregates, selects are *not* covered by this theorem — for them `ParamOK` is a
+    BOOLEAN/LOGICAL tokens, aggregates, selects are *not* covered by this theorem — for them `ParamOK` is a
     hypothesis of `C01_read_record_of_params`; they are tied by correspondence only).  Every dictionary, every reader
     configuration in which `CheckRemainingInput` skips comments, every layout, any number of parameters. -/
 theorem C01_read_record_partial {F} (env : Env F) (strict : Bool) (hcfg : env.lex.criSkipsComments = true)
-    (ps : List (Param F)) (hne : ps ≠ []) (hc : ∀ p ∈ ps, Covered p) (l : List Byte) (sk : Bool) (rest : List Byte) :
+    (ps : List (Param F)) (hne : ps ≠ []) (hc : ∀ p ∈ ps, Covered env p) (l : List Byte) (sk : Bool) (rest : List Byte) :
     ∃ sk', instSTEPread env strict (ps.map (·.a)) (G l (40 :: (renderParams ps ++ rest)) sk) =
       .ok ⟨.null, ps.map (·.v), G ((40 :: renderParams ps).reverse ++ l) rest sk'⟩ := by
   apply instSTEPread_params env strict ps hne
@@ -152,21 +159,24 @@ theorem C01_read_record_partial {F} (env : Env F) (strict : Bool) (hcfg : env.le
   | star a hder hred before after hb ha => exact ParamOK.star env strict hcfg a hder hred before after hb ha
   | integer a hty hder hred tok htok hlo hhi before after hb ha =>
     exact ParamOK.integer env strict hcfg a hty hder hred tok htok hlo hhi before after hb ha
+  | ref a tg hty hder hred ds hne hds hhi hfound before after hb ha =>
+    exact ParamOK.ref env strict hcfg a tg hty hder hred ds hne hds hhi hfound before after hb ha
 
 /-- the hypotheses are satisfiable: `( /* c */ -17 /**/ , $ )` for (INTEGER, OPTIONAL REAL) -/
-example : ∀ p ∈ ([{ a := { name := "i", ty := .one .integer, optional := false }, v := .one (.atom (.int (-17))),
-                    tok := q "-17", before := q " /* c */ ", after := q " /**/ " },
-                  { a := { name := "r", ty := .one .real, optional := true }, v := .one (.atom .unset),
-                    tok := [36], before := [], after := q " " }] : List (Param Nat)), Covered p := by
+def exI : AttrD := { name := "i", ty := .one .integer, optional := false }
+def exR : AttrD := { name := "r", ty := .one .real, optional := true }
+def exP1 : Param Nat :=
+  { a := exI, v := .one (.atom (.int (-17))), tok := q "-17", before := q " /* c */ ", after := q " /**/ " }
+def exP2 : Param Nat := { a := exR, v := .one (.atom .unset), tok := [36], before := [], after := q " " }
+
+example (env : Env Nat) : ∀ p ∈ [exP1, exP2], Covered env p := by
   intro p hp
   simp only [List.mem_cons, List.mem_nil_iff, or_false] at hp
   rcases hp with rfl | rfl
-  · exact Covered.integer { name := "i", ty := .one .integer, optional := false } rfl rfl rfl (q "-17") (by decide)
-      (by decide) (by decide) _ _
+  · exact Covered.integer (env := env) exI rfl rfl rfl (q "-17") (by decide) (by decide) (by decide) _ _
       (Seps.comment (q " ") (q " c ") (q " ") (by decide) (by decide) (Seps.blanks _ (by decide)))
       (Seps.comment (q " ") [] (q " ") (by decide) (by decide) (Seps.blanks _ (by decide)))
-  · exact Covered.dollar { name := "r", ty := .one .real, optional := true } rfl rfl rfl [] (q " ")
-      (Seps.blanks _ (by decide)) (Seps.blanks _ (by decide))
+  · exact Covered.dollar (env := env) exR rfl rfl rfl [] (q " ") (Seps.blanks _ (by decide)) (Seps.blanks _ (by decide))
 
 /-! ### what the writer emits is read back (record level) -/
 
@@ -181,8 +191,8 @@ inductive Storable {F} : AttrD → MVal F → Prop where
 def paramOf {F} (ops : FloatOps F) (cfg : RWCfg) (d : Dict) (a : AttrD) (v : MVal F) : Param F :=
   { a := a, v := v, tok := writeAttr ops cfg d a v, before := [], after := [] }
 
-theorem storable_covered {F} (ops : FloatOps F) (cfg : RWCfg) (d : Dict) (a : AttrD) (v : MVal F) (h : Storable a v) :
-    Covered (paramOf ops cfg d a v) := by
+theorem storable_covered {F} (env : Env F) (ops : FloatOps F) (cfg : RWCfg) (d : Dict) (a : AttrD) (v : MVal F) (h : Storable a v) :
+    Covered env (paramOf ops cfg d a v) := by
   cases h with
   | null hopt hder hred =>
     have : writeAttr ops cfg d a (nullOf a : MVal F) = [36] := by
@@ -197,7 +207,7 @@ theorem storable_covered {F} (ops : FloatOps F) (cfg : RWCfg) (d : Dict) (a : At
     have : writeAttr ops cfg d a (.one (.atom (.int i)) : MVal F) = showInt i := by
       simp [writeAttr, hty, writeElemAttr, writeAtomCore]
     unfold paramOf; rw [this]
-    have hc := Covered.integer (F := F) a hty hder hred (showInt i) hs.1 (by rw [hs.2]; exact hlo) (by rw [hs.2]; exact hhi)
+    have hc := Covered.integer (env := env) a hty hder hred (showInt i) hs.1 (by rw [hs.2]; exact hlo) (by rw [hs.2]; exact hhi)
       [] [] (Seps.blanks [] (by simp)) (Seps.blanks [] (by simp))
     rw [hs.2] at hc
     exact hc
@@ -215,10 +225,10 @@ def paramsOf {F} (ops : FloatOps F) (cfg : RWCfg) (d : Dict) : List AttrD → Li
 theorem storable_red {F} {a : AttrD} {v : MVal F} (h : Storable a v) : a.redefining = false := by
   cases h <;> assumption
 
-theorem paramsOf_spec {F} (ops : FloatOps F) (cfg : RWCfg) (d : Dict) (as : List AttrD) (vs : List (MVal F))
+theorem paramsOf_spec {F} (env : Env F) (ops : FloatOps F) (cfg : RWCfg) (d : Dict) (as : List AttrD) (vs : List (MVal F))
     (h : StorableRec as vs) :
     paramsOf ops cfg d as vs ≠ [] ∧ (paramsOf ops cfg d as vs).map (·.a) = as ∧ (paramsOf ops cfg d as vs).map (·.v) = vs ∧
-    (∀ p ∈ paramsOf ops cfg d as vs, Covered p) ∧
+    (∀ p ∈ paramsOf ops cfg d as vs, Covered env p) ∧
     (∀ i, writeAttrsSimple ops cfg d (i + 1) as vs ++ [41] = 44 :: renderParams (paramsOf ops cfg d as vs)) ∧
     writeAttrsSimple ops cfg d 0 as vs ++ [41] = renderParams (paramsOf ops cfg d as vs) := by
   induction h with
@@ -228,7 +238,7 @@ theorem paramsOf_spec {F} (ops : FloatOps F) (cfg : RWCfg) (d : Dict) (as : List
     · intro p hp
       simp only [paramsOf, List.mem_cons, List.mem_nil_iff, or_false] at hp
       subst hp
-      exact storable_covered ops cfg d a v h
+      exact storable_covered env ops cfg d a v h
     · intro i
       simp [writeAttrsSimple, hr, paramsOf, renderParams, paramOf]
     · simp [writeAttrsSimple, hr, paramsOf, renderParams, paramOf]
@@ -239,7 +249,7 @@ theorem paramsOf_spec {F} (ops : FloatOps F) (cfg : RWCfg) (d : Dict) (as : List
     · intro p hp
       simp only [paramsOf, List.mem_cons] at hp
       rcases hp with rfl | hp
-      · exact storable_covered ops cfg d a v h
+      · exact storable_covered env ops cfg d a v h
       · exact h4 p hp
     · intro i
       have hne : ∃ q qs, paramsOf ops cfg d as vs = q :: qs := by
@@ -267,7 +277,7 @@ theorem C01_record_write_read_partial {F} (env : Env F) (strict : Bool) (hcfg : 
     (cfg : RWCfg) (as : List AttrD) (vs : List (MVal F)) (h : StorableRec as vs) (l : List Byte) (sk : Bool) (rest : List Byte) :
     ∃ s', instSTEPread env strict as
         (G l (40 :: (writeAttrsSimple env.ops cfg env.dict 0 as vs ++ 41 :: rest)) sk) = .ok ⟨.null, vs, s'⟩ := by
-  obtain ⟨hne, hma, hmv, hcov, _, h0⟩ := paramsOf_spec env.ops cfg env.dict as vs h
+  obtain ⟨hne, hma, hmv, hcov, _, h0⟩ := paramsOf_spec env env.ops cfg env.dict as vs h
   obtain ⟨sk', hr⟩ := C01_read_record_partial env strict hcfg (paramsOf env.ops cfg env.dict as vs) hne hcov l sk rest
   rw [hma, hmv] at hr
   have e : writeAttrsSimple env.ops cfg env.dict 0 as vs ++ 41 :: rest =
